@@ -21,3 +21,15 @@
       (ite (<= (atoiMag s) 9223372036854775808) (- (atoiMag s)) (- 9223372036854775808))
       (ite (<= (atoiMag s) 9223372036854775807) (atoiMag s) 9223372036854775807))))
 (define-fun itoa ((n Int)) String (ite (>= n 0) (str.from_int n) (str.++ "-" (str.from_int (- n)))))
+
+; KEY=VALUE entries of an environment list: the key is what precedes the first "=", the value all
+; that follows it (values may contain "="); an entry without "=" has an empty value.
+(define-fun envKey ((e String)) String (ite (str.contains e "=") (str.substr e 0 (str.indexof e "=" 0)) e))
+(define-fun envVal ((e String)) String
+  (ite (str.contains e "=") (str.substr e (+ (str.indexof e "=" 0) 1) (- (str.len e) (+ (str.indexof e "=" 0) 1))) ""))
+; ---- paths and the file system (C16)
+(declare-fun isDirAt (Int String) Bool)      ; a directory exists at this path of this file system
+(declare-fun fiIsDir (Int) Bool)             ; fs.FileInfo.IsDir
+(declare-fun pathJoin2 (String String) String)
+(declare-fun pathDepth (String) Int)         ; number of elements below the root
+(declare-fun upN (String Int) String)        ; k-fold filepath.Dir
